@@ -22,3 +22,9 @@ Definition chk_dissim (aligned : bool) (nf : option Z) (Y : list (list Z))
   | None, None => true
   | _, _ => false
   end.
+Definition chk_add_rows (w : nat) (X : list (list Z)) (obs : list Z) : bool :=
+  zl_eqb (cpp_add_rows w X) obs.
+Definition chk_isim_unpacked (w : nat) (X : list (list Z)) (obs : float) : bool :=
+  feq_bits (cpp_isim_unpacked w X) obs.
+Definition chk_isim_packed (nf : option Z) (X : list (list Z)) (obs : option float) : bool :=
+  opt_eqb feq_bits (cpp_isim_packed nf X) obs.
